@@ -1889,9 +1889,12 @@ where
             slice = self.read.slice_unchecked(start, self.read.index());
             let lv = LazyValue::new(slice.into(), status.into());
             for p in &node.order {
-                out[*p] = Some(lv.clone());
+                // a duplicated key or index is visited again: the first one wins, as in `get`
+                if out[*p].is_none() {
+                    out[*p] = Some(lv.clone());
+                    *remain -= 1;
+                }
             }
-            *remain -= node.order.len();
         }
         Ok(())
     }
